@@ -74,6 +74,8 @@ TMhFinal ==
      IN Step(IF ~s.ok \/ e.obs.fault # 0 THEN MachineChecks(e, s.fam)
              ELSE LET exp == ToHex(IF s.big THEN MhDigestOfSegs(inner, s.segs) ELSE MhDigest(inner, msg))
                   IN    Chk(e.dig = exp, Prop(s.alg), "mh-digest", l, info \o << e.dig, exp >>)
+                     \* implementation-shaped: the context's digest field holds the same value after finalize
+                     \o (IF "cdig" \in DOMAIN e THEN Chk(e.cdig = e.dig, "DRIFT", "mh-context-digest-field", l, << s.alg, s.fam, e.cdig, e.dig >>) ELSE << >>)
                      \o (IF s.alg = "murmur"
                          THEN LET m == ToHex(IF s.big THEN Murmur3OfSegs(s.segs, s.seed) ELSE Murmur3x64128(msg, s.seed))
                               IN Chk(e.mur = m, "C10", "murmur-digest", l, info \o << ToHex(s.seed), e.mur, m >>)
